@@ -13,7 +13,7 @@ RULE = (
     "Hypothesis generates (shape, attached?, initial cells, history of 1..4 bulk edits through set_via_fn / set_via_gen with generated notes, "
     "generated yield subsets and orders, optional scribbling on the scratch array); for the last edit of every history the failure position is "
     "enumerated completely (callable raises at call index f for every f in 0..cells; generator raises after yield j for every j in 0..yields) "
-    "when the pattern has <= 256 cells (otherwise ends, middle and a stride). distinct = (history, failure position); non-trivial = failure at "
+    "when the pattern has <= 256 cells (otherwise ends, middle and a stride). distinct = (history, failure position); histories may also fail half-way at generated points before continuing on the same object, and every enumerated failure of the last edit is followed by a further successful edit; non-trivial = failure at "
     "an interior position after >= 1 successful write, or a second edit on top of a first"
 )
 ASSUMPTIONS = [
@@ -21,7 +21,7 @@ ASSUMPTIONS = [
     "after a failed edit the contents (cell tuples, raw_data) are claimed unchanged; identity of the internal list is not claimed",
 ]
 REQUIRED_LABELS = {
-    "quick": ["fn_success", "gen_success", "fn_fail_interior", "gen_fail_interior", "attached", "detached", "second_edit", "scribble"],
+    "quick": ["fn_success", "gen_success", "fn_fail_interior", "gen_fail_interior", "attached", "detached", "second_edit", "scribble", "failure_mid_history", "follow_up_after_failure"],
     "thorough": ["fn_success", "gen_success", "fn_fail_interior", "gen_fail_interior", "attached", "detached", "second_edit", "scribble"],
 }
 
@@ -53,13 +53,15 @@ def case_strategy(draw, max_tracks, max_lines):
         if kind == "fn":
             # a small palette of cells cycled over the pattern keeps cases small and shrinkable
             palette = draw(st.lists(cell, min_size=1, max_size=5))
-            edits.append({"kind": "fn", "palette": palette, "offset": draw(st.integers(0, 7))})
+            edits.append({"kind": "fn", "palette": palette, "offset": draw(st.integers(0, 7)), "fail_at": draw(st.one_of(st.none(), st.none(), st.integers(0, ncells - 1)))})
         else:
             k = draw(st.integers(0, min(ncells, 12)))
             idxs = draw(st.lists(st.integers(0, ncells - 1), min_size=k, max_size=k))
             cells = draw(st.lists(cell, min_size=k, max_size=k))
-            edits.append({"kind": "gen", "yields": [[i, c] for i, c in zip(idxs, cells)], "scribble": draw(st.booleans())})
-    return {"tracks": tracks, "lines": lines, "attached": draw(st.booleans()), "modules": draw(st.integers(0, 4)), "initial": initial, "edits": edits}
+            edits.append({"kind": "gen", "yields": [[i, c] for i, c in zip(idxs, cells)], "scribble": draw(st.booleans()), "fail_at": draw(st.one_of(st.none(), st.none(), st.integers(0, k)))})
+    kf = draw(st.integers(0, min(ncells, 4)))
+    follow = {"kind": "gen", "yields": [[draw(st.integers(0, ncells - 1)), draw(cell)] for _ in range(kf)], "scribble": False, "fail_at": None}
+    return {"tracks": tracks, "lines": lines, "attached": draw(st.booleans()), "modules": draw(st.integers(0, 4)), "initial": initial, "edits": edits, "follow_up": follow}
 
 
 class Boom(Exception):
@@ -174,12 +176,26 @@ def run_case(ctx, case, only_fail_at=None):
     nontrivial_keys = []
     for fail_at in runs:
         pattern, project = build(case)
-        # earlier edits complete
+        # earlier edits run on the same object; some of them fail half-way (then nothing may change)
         for ei, e in enumerate(edits[:-1]):
-            exp = apply_edit(pattern, e, None)
+            prev_cells = cells_of(pattern)
+            fa = e.get("fail_at")
+            try:
+                exp = apply_edit(pattern, e, fa)
+                failed = False
+            except Boom:
+                failed = True
+                exp = prev_cells
+                labels.add("failure_mid_history")
+            if fa is not None and not failed and not (e["kind"] == "fn" and fa >= ncells):
+                raise PropertyViolation("C19.failure.propagates", "edit %d (%s): exception injected at %d did not propagate" % (ei, e["kind"], fa))
             got = cells_of(pattern)
             if got != exp:
-                raise PropertyViolation("C19.success.contents", "edit %d (%s): cells differ from what was supplied" % (ei, e["kind"]))
+                bad = next(i for i, (a, b) in enumerate(zip(got, exp)) if a != b)
+                raise PropertyViolation(
+                    "C19.failure.unchanged" if failed else "C19.success.contents",
+                    "edit %d (%s, %s): cell %d is %r, expected %r" % (ei, e["kind"], "failed at %r" % fa if failed else "completed", bad, got[bad], exp[bad]),
+                )
             check_ownership(pattern, project, "after edit %d (%s)" % (ei, e["kind"]))
             labels.add("second_edit")
         before_cells = cells_of(pattern)
@@ -205,6 +221,15 @@ def run_case(ctx, case, only_fail_at=None):
             if cells_of(pattern) != before_cells or pattern.raw_data != before_raw:
                 raise PropertyViolation("C19.failure.unchanged", "%s failed at position %d of %d but the pattern contents changed" % (last["kind"], fail_at, n_pos))
             check_ownership(pattern, project, "after failed edit")
+            fu = case.get("follow_up")
+            if fu is not None:
+                exp2 = apply_edit(pattern, fu, None)
+                got2 = cells_of(pattern)
+                if got2 != exp2:
+                    bad = next(i for i, (a, b) in enumerate(zip(got2, exp2)) if a != b)
+                    raise PropertyViolation("C19.failure.later_edit_sees_original", "%s failed at %d; a later successful set_via_gen left cell %d = %r, expected %r (the failed edit's writes resurfaced)" % (last["kind"], fail_at, bad, got2[bad], exp2[bad]))
+                check_ownership(pattern, project, "after follow-up edit")
+                labels.add("follow_up_after_failure")
             if 0 < fail_at:
                 labels.add(last["kind"] + "_fail_interior")
                 nontrivial_keys.append(fail_at)
